@@ -13,6 +13,7 @@ package main
 //   leaf     — Value of a leaf node is the Value of a token stored in that node
 
 import (
+	"golang.org/x/tools/go/ssa"
 	"fmt"
 	"go/token"
 	"go/types"
@@ -801,6 +802,21 @@ func (g *gramCtx) checkGrammar(c *CheckCtx, gp *gramParser, want gramWant) *gram
 			c.addOb(g.obName(gp, rule, "subset", "action-within-modelled-subset"), "subset", site, false, "the action leaves the modelled subset: "+aborted)
 		}
 		if want.Shape {
+			// an error check that no shape of the inputs can reach is a swallowed error (C06): every
+			// error-reporting call site of the action is executed on at least one path
+			if reg := gp.Regions[rule.Num]; reg != nil && aborted == "" {
+				reached := map[*ssa.Call]bool{}
+				for _, p := range paths {
+					for c := range p.Run.cbSites {
+						reached[c] = true
+					}
+				}
+				for _, site := range gp.errorSites(reg) {
+					if !reached[site] {
+						shapeFails[fmt.Sprintf("dead-error-site: the error report at %s cannot be reached for any shape of the right-hand side (the condition guarding it is never true where it is tested)", c.W.pos(site.Pos()))] = true
+					}
+				}
+			}
 			var fs []string
 			for f := range shapeFails {
 				fs = append(fs, f)
